@@ -143,7 +143,7 @@ def r06_1(ctx):
     ctx.sample({"v8 header for seq 255": "ff0001" + "0000"})
 
 
-@rule("R06.4", ["C06", "C10"], "T-PAIR", floor=10)
+@rule("R06.4", ["C06", "C10", "C08"], "T-PAIR", floor=10)
 def r06_4(ctx):
     """The single in-flight slot: send and wait happen inside `async with self._send_semaphore(priority=...)`,
     which is a PriorityDynamicBoundedSemaphore of MAX_COMMAND_CONCURRENCY = 1 and is touched in no other way, so it
